@@ -28,6 +28,11 @@ func attSingles(key int, E []uint64, withDomains bool) []SOp {
 			}
 		}
 	}
+	// A public key spelt with a trailing byte resolves to the same account (the lookup uses the first 48 bytes).
+	for _, p := range batchPairs {
+		ops = append(ops, SOp{Kind: "att", Ents: []Ent{{Key: key, ByKey: true, Pad: true, S: p[0], T: p[1], Root: 1}}})
+		ops = append(ops, SOp{Kind: "att", Ents: []Ent{{Key: key, ByKey: true, Pad: true, S: p[0], T: p[1], Root: 2}}})
+	}
 	if withDomains {
 		for _, p := range batchPairs {
 			ops = append(ops, SOp{Kind: "att", Ents: []Ent{{Key: key, S: p[0], T: p[1], Root: 1, Dom: 1}}})
@@ -56,6 +61,9 @@ func attBatches(key, other int, triple bool) []SOp {
 				ops = append(ops, SOp{Kind: "atts", Ents: []Ent{benign, e, b2}})
 			}
 		}
+	}
+	for _, p := range batchPairs[:3] {
+		ops = append(ops, SOp{Kind: "atts", Ents: []Ent{{Key: key, ByKey: true, Pad: true, S: p[0], T: p[1], Root: 2}, benign}})
 	}
 	// The same key twice in one batch: by name and by key, by name twice; different data.
 	for i, p := range batchPairs {
